@@ -45,6 +45,10 @@ def schemeOf : String → Option Scheme
   -- `+o<scheme>`: Endpoint::origin(..) set as well; it does not take part in the TLS decision
   | "https+ohttp" => some .https
   | "http+ohttps" => some .http
+  -- `+oB…` / `+oC…`: an origin naming ANOTHER host, set before / after `tls_config`: the peer is authenticated
+  -- against the endpoint URI's host (or `domain_name`), the origin plays no part (seed C15f)
+  | "https+oBhttps" => some .https
+  | "https+oChttps" => some .https
   | _ => none
 
 def mapM? {α β : Type} (f : α → Option β) : List α → Option (List β)
